@@ -5,7 +5,7 @@ import ast
 import builtins as _pybuiltins
 import re
 
-from ..core.absint import AV, Alt, App, Const, ListV, Obj, Outcome, Rep, State, StrT, Sym, walk_av
+from ..core.absint import AV, Alt, App, Const, DictV, ListV, Obj, Outcome, Rep, State, StrT, Sym, walk_av
 from ..core.ctx import GEN, GENSTUBS, Ctx
 from ..core.report import Collector
 from ..core.source import AnalysisError
@@ -97,7 +97,7 @@ def check(ctx: Ctx, col: Collector, tier: str) -> None:
         it = ctx.interp(afi, inline={"_get_module_id"})
         st = gen_state({"self.module_id": Const(module_id), "self.currently_creating_reexport_data": Const(False), "self.module_imports": ListV((), False, "set"),
                         "self.classes_outside_package": ListV((), False, "set")})
-        st.env["self.api"] = Obj("API", (("classes", ListV(())), ("reexport_map", Sym("self.api.reexport_map"))))
+        st.env["self.api"] = Obj("API", (("classes", ListV(())), ("enums", ListV(())), ("reexport_map", Sym("self.api.reexport_map"))))
         outs = it.run_function(afi, {"self": Sym("self"), "import_qname": Const(qname)}, st)
         imported = {any(e.kind == "mutate" and e.target.endswith("module_imports.add") for e in o.effects) for o in outs if o.kind != "raise"}
         return imported, {o.kind == "raise" for o in outs}
@@ -119,7 +119,7 @@ def check(ctx: Ctx, col: Collector, tier: str) -> None:
     it = ctx.interp(afi, inline={"_get_module_id"})
     st = gen_state({"self.module_id": Const("pkg/mod"), "self.currently_creating_reexport_data": Const(False), "self.module_imports": ListV((), False, "set"),
                     "self.classes_outside_package": ListV((), False, "set")})
-    st.env["self.api"] = Obj("API", (("classes", ListV(())), ("reexport_map", Sym("self.api.reexport_map"))))
+    st.env["self.api"] = Obj("API", (("classes", ListV(())), ("enums", ListV(())), ("reexport_map", Sym("self.api.reexport_map"))))
     outs = it.run_function(afi, {"self": Sym("self"), "import_qname": Const("otherlib.sub.Thing")}, st)
     probs = []
     for o in outs:
@@ -130,6 +130,25 @@ def check(ctx: Ctx, col: Collector, tier: str) -> None:
     (col.ok if outs and not probs else col.bad)("C11.FOREIGN-PAIR", f"{GEN}::{GENCLS}._add_to_imports::foreign-class", repo.loc(GEN, afi.node),
                                                 "a class not found in the package is added to the imports and to the placeholder set with the same qualified name" if outs and not probs else "; ".join(probs),
                                                 *([] if outs and not probs else ["a class of another library is imported without a placeholder stub (or vice versa)"]))
+    # declarations of the analysed package that can be used as types (classes and enums) are never taken for foreign classes
+    for store in ("classes", "enums"):
+        it = ctx.interp(afi, inline={"_get_module_id", "_is_path_connected_to_class"})
+        st = gen_state({"self.module_id": Const("pkg/paint"), "self.currently_creating_reexport_data": Const(False), "self.module_imports": ListV((), False, "set"),
+                        "self.classes_outside_package": ListV((), False, "set")})
+        stores = {"classes": ListV(()), "enums": ListV(())}
+        stores[store] = ListV((Const("pkg/colors/Color"),))
+        st.env["self.api"] = Obj("API", (("classes", stores["classes"]), ("enums", stores["enums"]), ("reexport_map", DictV(()))))
+        it.summaries[("_get_shortest_public_reexport", ())] = ListV((Const(""), Const("")))
+        outs = it.run_function(afi, {"self": Sym("self"), "import_qname": Const("pkg.colors.Color")}, st)
+        foreign = [o for o in outs if any(e.kind == "mutate" and e.target.endswith("classes_outside_package.add") for e in o.effects)]
+        imported = [o for o in outs if any(e.kind == "mutate" and e.target.endswith("module_imports.add") for e in o.effects)]
+        key = f"{GEN}::{GENCLS}._add_to_imports::in-package::{store}"
+        if foreign or not imported or any(o.kind == "raise" for o in outs):
+            col.bad("C11.FOREIGN-PAIR", key, repo.loc(GEN, afi.node), f"{len(foreign)} of {len(outs)} paths register a placeholder; {len(imported)} register the import",
+                    f"a member of api.{store} of the analysed package (pkg.colors.Color used in pkg.paint) is taken for a class of another library: its placeholder stub is written over the stub of the "
+                    f"module that really declares it")
+        else:
+            col.ok("C11.FOREIGN-PAIR", key, repo.loc(GEN, afi.node), f"a member of api.{store} is found in the package: import registered, no placeholder")
     sfi = repo.function(GENSTUBS, "create_stub_files")
     col.touched(sfi)
     sit = ctx.interp(sfi)
